@@ -66,7 +66,7 @@ static std::string table_shape(const std::vector<Pattern>& table) {
 static void run_table(long idx) {
     Rng r(g_opts.seed * 1000081ull + (uint64_t)idx);
     set_case(idx, Json().num("i", idx).str("phase", "c10").num("seed", (long long)g_opts.seed).done());
-    g_cpu.arm(10.0);
+    g_cpu.arm(60.0);   // (protective only: C10 is about which handler runs, not about time)
     std::shared_ptr<Rest::Router> router = std::make_shared<Rest::Router>();
     std::vector<Pattern> table;
     int nextId = 0;
